@@ -413,9 +413,10 @@ func (h *Session) notify(frame Frame) {
 		return
 	}
 
-	// if transitioning to online, test if we need to notify previous IP is offline
+	// if transitioning to online, test if we need to notify previous IP is offline.
+	// The transition may have happened outside Parse (DHCPv4Update), so test the host state too.
 	offline := []*Host{}
-	if frame.onlineTransition() {
+	if frame.onlineTransition() || frame.Host.Online {
 		if frame.Host.Addr.IP.Is4() {
 			for _, v := range frame.Host.MACEntry.HostList {
 				if v != frame.Host && !v.Online && v.dirty {
